@@ -1247,3 +1247,107 @@ for _p in _properties():
                 "number is inside segment k iff offsets[k] <= n < offsets[k + 1]. Any comparison of a number with T[k + 1] (T an "
                 "*offsets table) that admits equality on the segment-k side is reported. Expected count on the tree: zero; the "
                 "detector is checked against a built-in example on every run.")(_make_g13(_p["id"]))
+
+
+# ---------------------------------------------------------------------------------------------------------------------------
+#  G14  a memo is keyed by everything that varies in what it remembers
+#       (`lens[docnum] = length(docnum, fieldname)` inside a loop over (fieldname, docnum): the second field reads the first one's)
+
+def underkeyed_memos(funcs):
+    n = 0
+    out = []
+    for f in funcs:
+        dicts = set()
+        for st in ast.walk(f.node):
+            if isinstance(st, ast.Assign) and len(st.targets) == 1 and isinstance(st.targets[0], ast.Name) and (
+                    (isinstance(st.value, ast.Dict) and not st.value.keys) or
+                    (isinstance(st.value, ast.Call) and isinstance(st.value.func, ast.Name) and st.value.func.id in ("dict", "defaultdict")
+                     and not st.value.args and not st.value.keywords)):
+                dicts.add(st.targets[0].id)
+        if not dicts:
+            continue
+        for lp in ast.walk(f.node):
+            if not isinstance(lp, (ast.For, ast.While)):
+                continue
+            body_nodes = [x for st in lp.body for x in ast.walk(st)]
+            stored = set()
+            if isinstance(lp, ast.For):
+                stored |= set(x.id for x in ast.walk(lp.target) if isinstance(x, ast.Name))
+            for x in body_nodes:
+                if isinstance(x, ast.Name) and isinstance(x.ctx, ast.Store):
+                    stored.add(x.id)
+            for st in body_nodes:
+                if not isinstance(st, ast.Assign) or not isinstance(st.value, ast.Call):
+                    continue
+                for t in st.targets:
+                    if not (isinstance(t, ast.Subscript) and isinstance(t.value, ast.Name) and t.value.id in dicts):
+                        continue
+                    c_ = t.value.id
+                    if c_ in stored:
+                        continue            # the dict itself is re-made inside the loop
+                    if any(isinstance(x, ast.Call) and isinstance(x.func, ast.Attribute) and x.func.attr == "clear" and
+                           isinstance(x.func.value, ast.Name) and x.func.value.id == c_ for x in body_nodes):
+                        continue            # ... or emptied there
+                    # a memo: the same key is looked up in the loop
+                    kt = ast.dump(t.slice)
+                    reads = [x for x in body_nodes if (isinstance(x, ast.Subscript) and isinstance(x.ctx, ast.Load) and isinstance(x.value, ast.Name)
+                                                       and x.value.id == c_ and ast.dump(x.slice) == kt) or
+                             (isinstance(x, ast.Compare) and len(x.ops) == 1 and isinstance(x.ops[0], (ast.In, ast.NotIn)) and
+                              isinstance(x.comparators[0], ast.Name) and x.comparators[0].id == c_ and ast.dump(x.left) == kt)]
+                    if not reads:
+                        continue
+                    n += 1
+                    knames = set(x.id for x in ast.walk(t.slice) if isinstance(x, ast.Name))
+                    anames = set(x.id for a in list(st.value.args) + [k.value for k in st.value.keywords] for x in ast.walk(a) if isinstance(x, ast.Name))
+                    # only loops in which the key itself varies are the memo's loop
+                    if not (knames & stored):
+                        continue
+                    # what varies in any loop around the store
+                    varying = set(stored)
+                    for outer in ast.walk(f.node):
+                        if isinstance(outer, (ast.For, ast.While)) and outer is not lp and any(x is lp for x in ast.walk(outer)):
+                            if isinstance(outer, ast.For):
+                                varying |= set(x.id for x in ast.walk(outer.target) if isinstance(x, ast.Name))
+                    missing = sorted((anames & varying) - knames - {c_})
+                    if missing:
+                        out.append((f, st, c_, missing))
+    # one report per store
+    seen = set()
+    uniq = []
+    for f, st, c_, missing in out:
+        if id(st) not in seen:
+            seen.add(id(st))
+            uniq.append((f, st, c_, missing))
+    return n, uniq
+
+
+def _make_g14(pid):
+    def g14(ctx):
+        prog = ctx.prog
+        probe = ast.parse("def f(posts, dfl):\n    lens = {}\n    ok = {}\n    for fieldname, docnum in posts:\n        if docnum not in lens:\n"
+                          "            lens[docnum] = dfl(docnum, fieldname)\n        if (fieldname, docnum) not in ok:\n"
+                          "            ok[fieldname, docnum] = dfl(docnum, fieldname)\n").body[0]
+
+        class _F(object):
+            node = probe
+            name = "f"
+        if len(underkeyed_memos([_F])[1]) != 1:
+            raise AnalysisError("G14 detector does not match its own positive example")
+        funcs = anchor_funcs(prog, pid)
+        n, bad = underkeyed_memos(funcs)
+        ctx.ob("%s anchor files" % pid, True, "%d memo stores `C[k] = f(...)` inside loops examined" % n)
+        for f, st, c_, missing in bad:
+            ctx.ob(f, False, "a memo's key names everything that varies in the remembered call",
+                   detail="`%s`: %s change%s from one round of the loop to the next and %s not in the key of `%s`, so a later round reads "
+                          "what an earlier one computed for other arguments" % (norm.stmt_text(st)[:100], ", ".join(missing),
+                                                                                 "s" if len(missing) == 1 else "", "is" if len(missing) == 1 else "are", c_),
+                   loc=ctx.nodeloc(f, st))
+    return g14
+
+
+for _p in _properties():
+    rule(_p["id"], "G14", "K6", "a memo is keyed by everything that varies in what it remembers",
+         clause="A local dict created outside a loop and filled inside it with `C[k] = f(args)` under a lookup of the same key is a "
+                "memo of f.  Every name among args that the loop (or a loop around it) re-binds must occur in k, unless C is re-made or "
+                "cleared inside the loop; otherwise a later round is answered with an earlier round's value.  Expected count on the tree: "
+                "zero; the detector is checked against a built-in example on every run.")(_make_g14(_p["id"]))
